@@ -638,6 +638,25 @@ class Evaluator:
         c = body.callee(bb)
         nctx = None
         conv = self._conv_impl(c) if (c is not None and not c.indirect) else None
+        if c is not None and not c.indirect and c.trait in ("std::ops::FnOnce", "std::ops::FnMut", "std::ops::Fn") \
+                and c.name in ("call_once", "call_mut", "call") and self.inline and ctx.depth < self.MAX_DEPTH:
+            # `f(x)` where f is known to be a closure of the crate (a parameter of an inlined helper bound to the closure its
+            # caller passes: `self.with_iter(|it| ..)`): the closure body runs here
+            if args is None:
+                args = tuple(self.operand(ctx, a) for a in body.term(bb)["args"])
+            clo = args[0] if args else None
+            while clo is not None and clo[0] == "ref":
+                clo = clo[1]
+            if clo is not None and clo[0] == "agg" and clo[1].startswith("closure:"):
+                d = clo[1][len("closure:"):]
+                cb = self.facts.bodies.get(d)
+                tup = args[1] if len(args) > 1 else None
+                if cb is not None and d not in ctx.stack and tup is not None and tup[0] == "agg" and tup[1] == "tuple":
+                    site = ctx.site + ((body.def_, bb),)
+                    nctx = Ctx(cb, params=(clo,) + tuple(tup[2]), self_adt=ctx.self_adt, bindings=ctx.bindings,
+                               depth=ctx.depth + 1, site=site, stack=ctx.stack + (d,), parent=(ctx, bb))
+                    ctx.memo[key] = nctx
+                    return nctx
         if c is not None and not c.indirect and not is_atomic(c) and (PURE.get(callee_model_key(c)) is None or conv) \
                 and self.inline and ctx.depth < self.MAX_DEPTH:
             d = conv or self.facts.resolve_callee(c, ctx.self_adt, self.bind(ctx))
